@@ -620,4 +620,511 @@ theorem bcast_spec (xs ys ys' : List (Core α)) (h : bcast xs ys = some ys') :
         hch _ (by simp [hij]) 0 0]
       simp [bcastIdx]
 
+/-! ### `cat` -/
+
+omit [CommRing α] in
+theorem sumNat_cons (a : Nat) (l : List Nat) : sumNat (a :: l) = a + sumNat l := by
+  have key : ∀ (l : List Nat) (a : Nat), List.foldl (· + ·) a l = a + List.foldl (· + ·) 0 l := by
+    intro l
+    induction l with
+    | nil => intro a; simp
+    | cons x l ih => intro a; simp only [List.foldl_cons]; rw [ih (a + x), ih (0 + x)]; omega
+  simp only [sumNat, List.foldl_cons]
+  rw [key l (0 + a)]; omega
+
+/-- moving all three running offsets of `catGet` is a shift of the block -/
+theorem catGet_shift (first last isDim : Bool) (ts : List (Core α)) (s1 s2 s3 : Nat) :
+    ∀ (o1 o2 o3 a i j b : Nat),
+      catGet first last isDim ts (o1 + s1) (o2 + s2) (o3 + s3) a i j b =
+        if s1 ≤ a ∧ s2 ≤ i ∧ s3 ≤ b then catGet first last isDim ts o1 o2 o3 (a - s1) (i - s2) j (b - s3)
+        else 0 := by
+  induction ts with
+  | nil => intro o1 o2 o3 a i j b; simp [catGet]
+  | cons t ts ih =>
+    intro o1 o2 o3 a i j b
+    simp only [catGet]
+    rw [show o1 + s1 + off first t.r0 = o1 + off first t.r0 + s1 by omega,
+      show (o2 + s2 + if isDim = true then t.m else 0) = (o2 + if isDim = true then t.m else 0) + s2 by omega,
+      show o3 + s3 + off last t.r1 = o3 + off last t.r1 + s3 by omega, ih]
+    by_cases hS : s1 ≤ a ∧ s2 ≤ i ∧ s3 ≤ b
+    · rw [if_pos hS, if_pos hS]
+      congr 1
+      have hc : (o1 + s1 ≤ a ∧ a < o1 + s1 + t.r0 ∧ o2 + s2 ≤ i ∧ i < o2 + s2 + t.m ∧
+            o3 + s3 ≤ b ∧ b < o3 + s3 + t.r1) ↔
+          (o1 ≤ a - s1 ∧ a - s1 < o1 + t.r0 ∧ o2 ≤ i - s2 ∧ i - s2 < o2 + t.m ∧
+            o3 ≤ b - s3 ∧ b - s3 < o3 + t.r1) := by omega
+      have e1 : a - (o1 + s1) = a - s1 - o1 := by omega
+      have e2 : i - (o2 + s2) = i - s2 - o2 := by omega
+      have e3 : b - (o3 + s3) = b - s3 - o3 := by omega
+      simp only [hc, e1, e2, e3]
+    · rw [if_neg hS, if_neg hS]
+      have : ¬ (o1 + s1 ≤ a ∧ a < o1 + s1 + t.r0 ∧ o2 + s2 ≤ i ∧ i < o2 + s2 + t.m ∧
+            o3 + s3 ≤ b ∧ b < o3 + s3 + t.r1) := by omega
+      rw [if_neg this]; simp
+
+/-- binary block core: `x` at the origin, `Y` shifted by `x`'s ranks (and by `x.m` on the
+    concatenated mode) -/
+def cat2Core (first last isDim : Bool) (x Y : Core α) : Core α :=
+  { r0 := if first then 1 else x.r0 + Y.r0
+    m := if isDim then x.m + Y.m else x.m
+    n := 1
+    r1 := if last then 1 else x.r1 + Y.r1
+    get := fun a i j b =>
+      (if a < x.r0 ∧ i < x.m ∧ b < x.r1 then x.get a i j b else 0) +
+      (if off first x.r0 ≤ a ∧ (if isDim then x.m else 0) ≤ i ∧ off last x.r1 ≤ b
+        then Y.get (a - off first x.r0) (i - (if isDim then x.m else 0)) j (b - off last x.r1) else 0) }
+
+theorem catCore_cons (first last isDim : Bool) (h : Core α) (hs : List (Core α)) :
+    catCore first last isDim (h :: hs) = cat2Core first last isDim h (catCore first last isDim hs) := by
+  have hget : ∀ a i j b, catGet first last isDim (h :: hs) 0 0 0 a i j b =
+      (if a < h.r0 ∧ i < h.m ∧ b < h.r1 then h.get a i j b else 0) +
+      (if off first h.r0 ≤ a ∧ (if isDim then h.m else 0) ≤ i ∧ off last h.r1 ≤ b
+        then catGet first last isDim hs 0 0 0 (a - off first h.r0) (i - (if isDim then h.m else 0)) j
+          (b - off last h.r1) else 0) := by
+    intro a i j b
+    simp only [catGet]
+    rw [catGet_shift]
+    simp
+  cases isDim <;> cases first <;> cases last <;>
+    simp only [catCore, cat2Core, List.map_cons, sumNat_cons, hget] <;> simp
+
+/-- binary `cat` of a train `xs` with an already concatenated block train `Ys` -/
+def cat2Go (dim : Nat) : Nat → Nat → List (Core α) → List (Core α) → List (Core α)
+  | k+1, i, x :: xs, Y :: Ys => cat2Core (i == 0) (k == 0) (i == dim) x Y :: cat2Go dim k (i+1) xs Ys
+  | _, _, _, _ => []
+
+omit [CommRing α] in
+theorem heads_exists (ts : List (List (Core α))) (k : Nat) (h : ∀ u ∈ ts, u.length = k + 1) :
+    ∃ hs, heads ts = some hs := by
+  induction ts with
+  | nil => exact ⟨[], rfl⟩
+  | cons u ts ih =>
+    obtain ⟨hs, hhs⟩ := ih (fun v hv => h v (List.mem_cons_of_mem _ hv))
+    have hu := h u List.mem_cons_self
+    match u, hu with
+    | c :: u', _ => exact ⟨c :: hs, by simp [heads, hhs]⟩
+
+/-- peeling the first operand off a k-ary `cat` -/
+theorem catGo_cons (dim : Nat) : ∀ (n i : Nat) (t : List (Core α)) (ts : List (List (Core α))),
+    t.length = n → (∀ u ∈ ts, u.length = n) →
+    catGo dim n i (t :: ts) = cat2Go dim n i t (catGo dim n i ts) := by
+  intro n
+  induction n with
+  | zero => intro i t ts _ _; simp [catGo, cat2Go]
+  | succ k ih =>
+    intro i t ts ht hts
+    obtain ⟨hs, hhs⟩ := heads_exists ts k hts
+    match t, ht with
+    | c :: t', ht =>
+      have ht' : t'.length = k := by simpa using ht
+      have hts' : ∀ u ∈ ts.map List.tail, u.length = k := by
+        intro u hu
+        obtain ⟨v, hv, rfl⟩ := List.mem_map.mp hu
+        simp [hts v hv]
+      have e1 : heads ((c :: t') :: ts) = some (c :: hs) := by simp [heads, hhs]
+      have IH := ih (i + 1) t' (ts.map List.tail) ht' hts'
+      simp only [catGo, e1, hhs, List.map_cons, List.tail_cons, cat2Go, catCore_cons, IH]
+
+/-- the x-block of `cat2Core` only sees in-range mode indices -/
+def maskCore (c : Core α) : Core α :=
+  { c with get := fun a i j b => if i < c.m then c.get a i j b else 0 }
+
+/-- is the index on the concatenated mode beyond `xs`'s block? -/
+def catOK (dim : Nat) : Nat → List (Core α) → List Nat → Bool
+  | i, x :: xs, j :: js => (i != dim || decide (x.m ≤ j)) && catOK dim (i+1) xs js
+  | _, _, _ => true
+
+/-- index seen by the remaining operands: shifted by `x.m` on the concatenated mode -/
+def catRest (dim : Nat) : Nat → List (Core α) → List Nat → List Nat
+  | i, x :: xs, j :: js => (if i = dim then j - x.m else j) :: catRest dim (i+1) xs js
+  | _, _, _ => []
+
+/-- block placement for binary `cat`, any starting position `i` -/
+theorem chain_cat2Go (dim : Nat) (xs Ys : List (Core α)) (is : List Nat) (hne : xs ≠ []) :
+    ∀ (n i rx rY : Nat), xs.length = n → Ys.length = n → is.length = n → WF xs rx → WF Ys rY →
+    ∀ a, chain (cat2Go dim n i xs Ys) (tIdx is) a 0 =
+      (if a < rx then chain (xs.map maskCore) (tIdx is) a 0 else 0) +
+      (if off (i == 0) rx ≤ a then
+        (if catOK dim i xs is then chain Ys (tIdx (catRest dim i xs is)) (a - off (i == 0) rx) 0 else 0)
+       else 0) := by
+  induction xs generalizing Ys is with
+  | nil => exact absurd rfl hne
+  | cons x xs ih =>
+    intro n i rx rY hlx hlY hli hwx hwY a
+    match n, Ys, is, hlx, hlY, hli with
+    | k+1, Y :: Ys, j :: js, hlx, hlY, hli =>
+      obtain ⟨hx0, hwx'⟩ := hwx
+      obtain ⟨hY0, hwY'⟩ := hwY
+      subst hx0
+      cases xs with
+      | nil =>
+        have hk : k = 0 := by simpa using hlx.symm
+        subst hk
+        have hYs : Ys = [] := by
+          cases Ys with
+          | nil => rfl
+          | cons _ _ => simp at hlY
+        have hjs : js = [] := by
+          cases js with
+          | nil => rfl
+          | cons _ _ => simp at hli
+        subst hYs hjs
+        have hx1 : x.r1 = 1 := hwx'
+        have hY1 : Y.r1 = 1 := hwY'
+        by_cases hid : i = dim
+        · by_cases hj : x.m ≤ j
+          · have hj' : ¬ (j < x.m) := by omega
+            simp [cat2Go, cat2Core, chain, tIdx, maskCore, catOK, catRest, off, sumTo, hx1, hY1, hid, hj, hj']
+          · have hj' : j < x.m := by omega
+            simp [cat2Go, cat2Core, chain, tIdx, maskCore, catOK, off, sumTo, hx1, hid, hj, hj']
+        · by_cases hj : j < x.m
+          · simp [cat2Go, cat2Core, chain, tIdx, maskCore, catOK, catRest, off, sumTo, hx1, hY1, hid, hj]
+          · simp [cat2Go, cat2Core, chain, tIdx, maskCore, catOK, catRest, off, sumTo, hx1, hY1, hid, hj]
+      | cons x' xs' =>
+        match k, Ys, js, hlx, hlY, hli with
+        | k'+1, Y' :: Ys', j' :: js', hlx, hlY, hli =>
+          have hlx' : (x' :: xs').length = k' + 1 := by simpa using hlx
+          have hlY' : (Y' :: Ys').length = k' + 1 := by simpa using hlY
+          have hli' : (j' :: js').length = k' + 1 := by simpa using hli
+          have IH := ih (Y' :: Ys') (j' :: js') (by simp) (k' + 1) (i + 1) x.r1 Y.r1 hlx' hlY' hli' hwx' hwY'
+          have hi1 : ((i + 1 == 0) = false) := by simp
+          simp only [hi1, off] at IH
+          have e : cat2Go dim (k' + 1 + 1) i (x :: x' :: xs') (Y :: Y' :: Ys') =
+              cat2Core (i == 0) false (i == dim) x Y ::
+                cat2Go dim (k' + 1) (i + 1) (x' :: xs') (Y' :: Ys') := by
+            simp [cat2Go]
+          rw [e]
+          have et : tIdx (j :: j' :: js') = (j, 0) :: tIdx (j' :: js') := rfl
+          rw [et]
+          simp only [chain]
+          show sumTo (x.r1 + Y.r1) _ = _
+          rw [sumTo_add]
+          congr 1
+          · -- x block
+            have em : (x :: x' :: xs').map maskCore = maskCore x :: (x' :: xs').map maskCore := rfl
+            rw [em]
+            simp only [chain]
+            by_cases ha : a < x.r0
+            · rw [if_pos ha]
+              show _ = sumTo x.r1 _
+              apply sumTo_congr; intro b hb
+              rw [IH b]
+              have hb2 : ¬ (x.r1 ≤ b) := by omega
+              by_cases hj : j < x.m
+              · simp [cat2Core, maskCore, off, ha, hb, hb2, hj]
+              · simp [cat2Core, maskCore, off, ha, hb, hb2, hj]
+            · rw [if_neg ha]
+              apply sumTo_eq_zero; intro b hb
+              have hb2 : ¬ (x.r1 ≤ b) := by omega
+              simp [cat2Core, off, ha, hb2]
+          · -- Y block
+            have hoff : ∀ b, b < Y.r1 →
+                chain (cat2Go dim (k' + 1) (i + 1) (x' :: xs') (Y' :: Ys')) (tIdx (j' :: js')) (x.r1 + b) 0 =
+                if catOK dim (i + 1) (x' :: xs') (j' :: js') then
+                  chain (Y' :: Ys') (tIdx (catRest dim (i + 1) (x' :: xs') (j' :: js'))) b 0 else 0 := by
+              intro b _
+              rw [IH (x.r1 + b)]
+              have h1 : ¬ (x.r1 + b < x.r1) := by omega
+              simp [h1]
+            have ecat : catOK dim i (x :: x' :: xs') (j :: j' :: js') =
+                ((i != dim || decide (x.m ≤ j)) && catOK dim (i + 1) (x' :: xs') (j' :: js')) := rfl
+            by_cases ha : off (i == 0) x.r0 ≤ a
+            · rw [if_pos ha]
+              by_cases hok : (i != dim || decide (x.m ≤ j)) = true
+              · by_cases hok2 : catOK dim (i + 1) (x' :: xs') (j' :: js') = true
+                · have hokk : catOK dim i (x :: x' :: xs') (j :: j' :: js') = true := by
+                    rw [ecat, Bool.and_eq_true]; exact ⟨hok, hok2⟩
+                  rw [if_pos hokk]
+                  have er : catRest dim i (x :: x' :: xs') (j :: j' :: js') =
+                      (if i = dim then j - x.m else j) :: catRest dim (i + 1) (x' :: xs') (j' :: js') := rfl
+                  rw [er]
+                  have et2 : ∀ q l, tIdx (q :: l) = (q, 0) :: tIdx l := fun _ _ => rfl
+                  rw [et2 (if i = dim then j - x.m else j)]
+                  simp only [chain]
+                  apply sumTo_congr; intro b hb
+                  rw [hoff b hb, if_pos hok2]
+                  have hb1 : ¬ (x.r1 + b < x.r1) := by omega
+                  by_cases hid : i = dim
+                  · have hj : x.m ≤ j := by simpa [hid] using hok
+                    simp [cat2Core, off, hb1, hid, hj]
+                    intro hh
+                    have : ¬ (a < off (i == 0) x.r0) := by omega
+                    exact absurd (by simpa [off, hid] using hh) this
+                  · simp [cat2Core, off, hb1, hid]
+                    intro hh
+                    have : ¬ (a < off (i == 0) x.r0) := by omega
+                    exact absurd (by simpa [off, hid] using hh) this
+                · have hokk : ¬ (catOK dim i (x :: x' :: xs') (j :: j' :: js') = true) := by
+                    rw [ecat, Bool.and_eq_true]; exact fun h => hok2 h.2
+                  rw [if_neg hokk]
+                  apply sumTo_eq_zero; intro b hb
+                  rw [hoff b hb, if_neg hok2]; ring
+              · have hokk : ¬ (catOK dim i (x :: x' :: xs') (j :: j' :: js') = true) := by
+                  rw [ecat, Bool.and_eq_true]; exact fun h => hok h.1
+                rw [if_neg hokk]
+                apply sumTo_eq_zero; intro b hb
+                have hb1 : ¬ (x.r1 + b < x.r1) := by omega
+                have hid : i = dim := by
+                  by_contra hne; exact hok (by simp [hne])
+                have hj : ¬ (x.m ≤ j) := by
+                  intro hj; exact hok (by simp [hj])
+                simp [cat2Core, hb1, hid, hj]
+            · rw [if_neg ha]
+              apply sumTo_eq_zero; intro b hb
+              have hb1 : ¬ (x.r1 + b < x.r1) := by omega
+              simp [cat2Core, hb1, ha]
+
+theorem WF_cat2Go (dim : Nat) (xs Ys : List (Core α)) (hne : xs ≠ []) :
+    ∀ (n i rx rY : Nat), xs.length = n → Ys.length = n → WF xs rx → WF Ys rY →
+      WF (cat2Go dim n i xs Ys) (if i = 0 then 1 else rx + rY) := by
+  induction xs generalizing Ys with
+  | nil => exact absurd rfl hne
+  | cons x xs ih =>
+    intro n i rx rY hlx hlY hwx hwY
+    match n, Ys, hlx, hlY with
+    | k+1, Y :: Ys, hlx, hlY =>
+      obtain ⟨hx0, hwx'⟩ := hwx
+      obtain ⟨hY0, hwY'⟩ := hwY
+      cases xs with
+      | nil =>
+        have hk : k = 0 := by simpa using hlx.symm
+        subst hk
+        refine ⟨?_, ?_⟩
+        · by_cases hi : i = 0 <;> simp [cat2Core, hi, hx0, hY0]
+        · simp [cat2Go, cat2Core, WF]
+      | cons x' xs' =>
+        match k, Ys, hlx, hlY with
+        | k'+1, Y' :: Ys', hlx, hlY =>
+          have hlx' : (x' :: xs').length = k' + 1 := by simpa using hlx
+          have hlY' : (Y' :: Ys').length = k' + 1 := by simpa using hlY
+          have IH := ih (Y' :: Ys') (by simp) (k' + 1) (i + 1) x.r1 Y.r1 hlx' hlY' hwx' hwY'
+          have e : cat2Go dim (k' + 1 + 1) i (x :: x' :: xs') (Y :: Y' :: Ys') =
+              cat2Core (i == 0) false (i == dim) x Y ::
+                cat2Go dim (k' + 1) (i + 1) (x' :: xs') (Y' :: Ys') := by
+            simp [cat2Go]
+          rw [e]
+          refine ⟨?_, ?_⟩
+          · by_cases hi : i = 0 <;> simp [cat2Core, hi, hx0, hY0]
+          · simpa [cat2Core] using IH
+
+theorem length_cat2Go (dim : Nat) (xs Ys : List (Core α)) :
+    ∀ (n i : Nat), xs.length = n → Ys.length = n → (cat2Go dim n i xs Ys).length = n := by
+  induction xs generalizing Ys with
+  | nil => intro n i h _; subst h; cases Ys <;> simp [cat2Go]
+  | cons x xs ih =>
+    intro n i hlx hlY
+    match n, Ys, hlx, hlY with
+    | k+1, Y :: Ys, hlx, hlY =>
+      simp only [cat2Go, List.length_cons]
+      rw [ih Ys k (i + 1) (by simpa using hlx) (by simpa using hlY)]
+
+/-- `cat` of no operands: all-zero block cores -/
+theorem WF_catGo_nil (dim : Nat) : ∀ (n i : Nat), 1 ≤ n →
+    WF (catGo dim n i ([] : List (List (Core α)))) (if i = 0 then 1 else 0) := by
+  intro n
+  induction n with
+  | zero => intro i h; omega
+  | succ k ih =>
+    intro i _
+    simp only [catGo, heads, List.map_nil]
+    refine ⟨?_, ?_⟩
+    · by_cases hi : i = 0 <;> simp [catCore, hi, sumNat]
+    · cases k with
+      | zero => simp [catGo, catCore, WF]
+      | succ k' =>
+        have := ih (i + 1) (by omega)
+        simpa [catCore, sumNat] using this
+
+theorem length_catGo_nil (dim : Nat) : ∀ (n i : Nat),
+    (catGo dim n i ([] : List (List (Core α)))).length = n := by
+  intro n
+  induction n with
+  | zero => intro i; simp [catGo]
+  | succ k ih => intro i; simp [catGo, heads, ih (i + 1)]
+
+theorem chain_catGo_nil (dim : Nat) (n i : Nat) (hn : 1 ≤ n) (ij : List (Nat × Nat)) (a b : Nat) :
+    chain (catGo dim n i ([] : List (List (Core α)))) ij a b = 0 := by
+  match n, hn with
+  | k+1, _ =>
+    simp only [catGo, heads, List.map_nil]
+    match ij with
+    | [] => simp [chain]
+    | p :: ps =>
+      simp only [chain]
+      apply sumTo_eq_zero; intro c _
+      simp [catCore, catGet]
+
+theorem WF_catGo (dim d : Nat) (hd : 1 ≤ d) (ts : List (List (Core α)))
+    (hlen : ∀ t ∈ ts, t.length = d) (hwf : ∀ t ∈ ts, WF t 1) :
+    WF (catGo dim d 0 ts) 1 ∧ (catGo dim d 0 ts).length = d := by
+  induction ts with
+  | nil =>
+    exact ⟨by simpa using WF_catGo_nil (α := α) dim d 0 hd, length_catGo_nil dim d 0⟩
+  | cons t ts ih =>
+    obtain ⟨hw, hl⟩ := ih (fun u hu => hlen u (List.mem_cons_of_mem _ hu))
+      (fun u hu => hwf u (List.mem_cons_of_mem _ hu))
+    have ht := hlen t List.mem_cons_self
+    have hne : t ≠ [] := by intro h; subst h; simp at ht; omega
+    rw [catGo_cons dim d 0 t ts ht (fun u hu => hlen u (List.mem_cons_of_mem _ hu))]
+    refine ⟨?_, length_cat2Go dim t _ d 0 ht hl⟩
+    have := WF_cat2Go dim t (catGo dim d 0 ts) hne d 0 1 1 ht hl (hwf t List.mem_cons_self) hw
+    simpa using this
+
+/-- masked train = the train itself on in-range indices -/
+theorem chain_mask_eq (xs : List (Core α)) (is : List Nat) (hil : is.length = xs.length)
+    (hin : ∀ q, q < xs.length → is.getD q 0 < (modesM xs).getD q 0) :
+    ∀ a b, chain (xs.map maskCore) (tIdx is) a b = chain xs (tIdx is) a b := by
+  induction xs generalizing is with
+  | nil => intro a b; simp [chain]
+  | cons x xs ih =>
+    match is, hil with
+    | i :: is, hil =>
+      intro a b
+      have hil' : is.length = xs.length := by simpa using hil
+      have h0 : i < x.m := by simpa [modesM] using hin 0 (by simp)
+      have hin' : ∀ q, q < xs.length → is.getD q 0 < (modesM xs).getD q 0 := by
+        intro q hq
+        have := hin (q + 1) (by simpa using hq)
+        simpa [modesM] using this
+      have IH := ih is hil' hin'
+      simp only [tIdx] at IH
+      simp only [List.map_cons, chain, tIdx]
+      apply sumTo_congr; intro k _
+      rw [IH k b]
+      simp [maskCore, h0]
+
+/-- masked train vanishes as soon as one index is out of range -/
+theorem chain_mask_zero (xs : List (Core α)) (is : List Nat) (hil : is.length = xs.length)
+    (q : Nat) (hq : q < xs.length) (hout : (modesM xs).getD q 0 ≤ is.getD q 0) :
+    ∀ a b, chain (xs.map maskCore) (tIdx is) a b = 0 := by
+  induction xs generalizing is q with
+  | nil => simp at hq
+  | cons x xs ih =>
+    match is, hil with
+    | i :: is, hil =>
+      intro a b
+      have hil' : is.length = xs.length := by simpa using hil
+      simp only [List.map_cons, chain, tIdx]
+      apply sumTo_eq_zero; intro k _
+      cases q with
+      | zero =>
+        have h0 : ¬ (i < x.m) := by
+          have : x.m ≤ i := by simpa [modesM] using hout
+          omega
+        simp [maskCore, h0]
+      | succ q =>
+        have IH := ih is hil' q (by simpa using hq) (by simpa [modesM] using hout) k b
+        simp only [tIdx] at IH
+        rw [IH]; ring
+
+omit [CommRing α] in
+/-- past the concatenated mode nothing changes -/
+theorem catOK_catRest_past (dim : Nat) (xs : List (Core α)) (is : List Nat) (hil : is.length = xs.length) :
+    ∀ i, dim < i → catOK dim i xs is = true ∧ catRest dim i xs is = is := by
+  induction xs generalizing is with
+  | nil => intro i _; match is, hil with | [], _ => simp [catOK, catRest]
+  | cons x xs ih =>
+    match is, hil with
+    | j :: js, hil =>
+      intro i hi
+      have hne : i ≠ dim := by omega
+      obtain ⟨h1, h2⟩ := ih js (by simpa using hil) (i + 1) (by omega)
+      simp [catOK, catRest, hne, h1, h2]
+
+omit [CommRing α] in
+/-- index form of `catOK` / `catRest` -/
+theorem catOK_catRest_at (dim : Nat) (xs : List (Core α)) (is : List Nat) (hil : is.length = xs.length) :
+    ∀ i, i ≤ dim → dim - i < xs.length →
+      catOK dim i xs is = decide ((modesM xs).getD (dim - i) 0 ≤ is.getD (dim - i) 0) ∧
+      catRest dim i xs is = is.set (dim - i) (is.getD (dim - i) 0 - (modesM xs).getD (dim - i) 0) := by
+  induction xs generalizing is with
+  | nil => intro i _ h; simp at h
+  | cons x xs ih =>
+    match is, hil with
+    | j :: js, hil =>
+      intro i hi hlt
+      have hil' : js.length = xs.length := by simpa using hil
+      by_cases hid : i = dim
+      · subst hid
+        obtain ⟨h1, h2⟩ := catOK_catRest_past i xs js hil' (i + 1) (by omega)
+        simp [catOK, catRest, h1, h2, modesM]
+      · have e : dim - i = (dim - (i + 1)) + 1 := by omega
+        obtain ⟨h1, h2⟩ := ih js hil' (i + 1) (by omega) (by simp at hlt; omega)
+        rw [e]
+        simp [catOK, catRest, hid, h1, h2, modesM]
+
+/-- offset of operand `p` on the concatenated mode: `Σ_{q<p} ts[q].modes[dim]` -/
+def catOffset (dim : Nat) (ts : List (List (Core α))) (p : Nat) : Nat :=
+  sumNat ((ts.take p).map (fun t => (modesM t).getD dim 0))
+
+/-- entry of the k-ary `cat` = entry of the operand selected by the concatenated index -/
+theorem full_catGo (dim d : Nat) (hd : dim < d) (ts : List (List (Core α))) :
+    ∀ (is : List Nat) (p : Nat) (hp : p < ts.length),
+      (∀ t ∈ ts, t.length = d) → (∀ t ∈ ts, WF t 1) → is.length = d →
+      catOffset dim ts p ≤ is.getD dim 0 →
+      is.getD dim 0 < catOffset dim ts p + (modesM ts[p]).getD dim 0 →
+      (∀ q, q < d → q ≠ dim → is.getD q 0 < (modesM ts[p]).getD q 0) →
+      full (catGo dim d 0 ts) (tIdx is) =
+        full ts[p] (tIdx (is.set dim (is.getD dim 0 - catOffset dim ts p))) := by
+  induction ts with
+  | nil => intro is p hp; simp at hp
+  | cons t ts ih =>
+    intro is p hp hlen hwf hil hlo hhi hin
+    have hlen' : ∀ u ∈ ts, u.length = d := fun u hu => hlen u (List.mem_cons_of_mem _ hu)
+    have hwf' : ∀ u ∈ ts, WF u 1 := fun u hu => hwf u (List.mem_cons_of_mem _ hu)
+    have ht := hlen t List.mem_cons_self
+    have hwt := hwf t List.mem_cons_self
+    have hne : t ≠ [] := by intro h; subst h; simp at ht; omega
+    obtain ⟨hwY, hlY⟩ := WF_catGo dim d (by omega) ts hlen' hwf'
+    have hilt : is.length = t.length := by omega
+    obtain ⟨hok, hrest⟩ := catOK_catRest_at dim t is hilt 0 (by omega) (by omega)
+    simp only [Nat.sub_zero] at hok hrest
+    rw [catGo_cons dim d 0 t ts ht hlen']
+    unfold full
+    rw [chain_cat2Go dim t (catGo dim d 0 ts) is hne d 0 1 1 ht hlY hil hwt hwY 0]
+    simp only [Nat.lt_one_iff, if_true, beq_self_eq_true, off, Nat.zero_le, Nat.sub_zero]
+    cases p with
+    | zero =>
+      have hoff0 : catOffset dim (t :: ts) 0 = 0 := by simp [catOffset, sumNat]
+      rw [hoff0] at hlo hhi ⊢
+      simp only [List.getElem_cons_zero, Nat.zero_add] at hhi hin
+      have hnot : ¬ ((modesM t).getD dim 0 ≤ is.getD dim 0) := by omega
+      rw [hok]
+      simp only [hnot, decide_false, Bool.false_eq_true, if_false, add_zero]
+      have hall : ∀ q, q < t.length → is.getD q 0 < (modesM t).getD q 0 := by
+        intro q hq
+        by_cases hqd : q = dim
+        · subst hqd; exact hhi
+        · exact hin q (by omega) hqd
+      rw [chain_mask_eq t is hilt hall 0 0]
+      have hd' : dim < is.length := by omega
+      have : is.set dim (is.getD dim 0 - 0) = is := by
+        simp [List.getD_eq_getElem?_getD, hd']
+      rw [this]
+      rfl
+    | succ p =>
+      have hp' : p < ts.length := by simpa using hp
+      have hoffS : catOffset dim (t :: ts) (p + 1) = (modesM t).getD dim 0 + catOffset dim ts p := by
+        simp [catOffset, sumNat_cons]
+      rw [hoffS] at hlo hhi ⊢
+      simp only [List.getElem_cons_succ] at hhi hin ⊢
+      have hge : (modesM t).getD dim 0 ≤ is.getD dim 0 := by omega
+      rw [chain_mask_zero t is hilt dim (by omega) hge 0 0, hok]
+      simp only [hge, decide_true, if_true, zero_add]
+      rw [hrest]
+      have hd' : dim < is.length := by omega
+      have hg1 : (is.set dim (is.getD dim 0 - (modesM t).getD dim 0)).getD dim 0
+          = is.getD dim 0 - (modesM t).getD dim 0 := by
+        simp [List.getD_eq_getElem?_getD, hd']
+      have hg2 : ∀ q, q ≠ dim → (is.set dim (is.getD dim 0 - (modesM t).getD dim 0)).getD q 0
+          = is.getD q 0 := by
+        intro q hq
+        simp only [List.getD_eq_getElem?_getD]
+        rw [List.getElem?_set_ne (by omega)]
+      have IH := ih (is.set dim (is.getD dim 0 - (modesM t).getD dim 0)) p hp' hlen' hwf'
+        (by simpa using hil) (by rw [hg1]; omega) (by rw [hg1]; omega)
+        (by intro q hq hqd; rw [hg2 q hqd]; exact hin q hq hqd)
+      unfold full at IH
+      rw [IH, hg1, List.set_set, Nat.sub_add_eq]
+
 end TT
